@@ -18,6 +18,34 @@ THEOREMS = [
     "Mpc.C01_concrete",
 ]
 
+# C01 over garbling HISTORIES on one circuit value (failing Garble calls, several garblings live at once):
+# Props/C01Hist.lean on top of the ownership model of C17
+HIST_THEOREMS = [
+    "Mpc.Pool.reachable_runHist",
+    "Mpc.Pool.C01_history_pool_invariant",
+    "Mpc.Pool.C01_history_live_garblings_evaluate_correctly",
+    "Mpc.Pool.C01_history_live_garbling_stable",
+    "Mpc.Pool.C01_history_failed_garble_only_puts",
+    "Mpc.Pool.C01_history_next_call_enabled",
+    "Mpc.Pool.C01_history_garble_enabled_after_failure",
+    "Mpc.Pool.C01_history_double_put_breaks",
+]
+HIST_SHAPES = 7
+HIST_CLASSES = ["beforeR", "insideR", "afterR", "insideLabel", "betweenLabels", "lastByte", "badKey"]
+
+
+def run_hist(ctx, n, seed, tag=""):
+    """Histories on one circuit value: failing Garble calls at every structurally different point of the random
+    tape / refused keys, 2..3 garblings live together, evaluated out of order, released in any order
+    (harness/cmd/c01/hist.go); the same op lines on the ownership model instantiated with Garble's writes."""
+    import hashlib
+    ops, out, meta = ctx.run_hx("hist", n, seed=seed, tag=tag)
+    ctx.absorb_meta(meta)
+    ctx.correspond("garbling histories with failing Garble calls and overlapping live garblings byte-exact "
+                   "(seed %d%s)" % (seed, tag), ops, out)
+    for line in open(ops, errors="replace"):
+        ctx.distinct.add(hashlib.sha1(line.encode()).digest())
+
 
 def distinct_ops(ctx, ops):
     import hashlib
@@ -30,9 +58,11 @@ def distinct_ops(ctx, ops):
 
 def run(ctx):
     ctx.prove("MpcVerif.Props.C01", THEOREMS)
-    run_t1(ctx)
+    ctx.prove("MpcVerif.Props.C01Hist", HIST_THEOREMS)
+    run_t1(ctx, ["C01"])          # label primitives and garbling leaves
     if ctx.tier == "thorough":
         ctx.leanchecker("MpcVerif.Props.C01")
+        ctx.leanchecker("MpcVerif.Props.C01Hist")
     ctx.build_drv()
     n = 300 if ctx.tier == "quick" else 4000
     seeds = [ctx.seed] if ctx.tier == "quick" else [ctx.seed, ctx.seed + 1000, ctx.seed + 2000]
@@ -42,6 +72,14 @@ def run(ctx):
             ctx.absorb_meta(meta)
             ctx.correspond("Garble/Eval/Compute byte-exact (seed %d)" % s, ops, out)
             distinct_ops(ctx, ops)
+        nh = 147 if ctx.tier == "quick" else 1470      # multiples of 7 shapes x 7 failure classes
+        for s in seeds:
+            run_hist(ctx, nh, s)
+        if ctx.widen:
+            for s in range(ctx.seed + 8000, ctx.seed + 8004):
+                run_hist(ctx, 4 * nh, s, tag="-widen")
+                if ctx.fails:
+                    break
         if ctx.widen:
             # widened search for a concrete failing input (oracle only)
             for s in range(ctx.seed + 7000, ctx.seed + 7006):
@@ -54,17 +92,41 @@ def run(ctx):
         ctx.coverage["permute_value_combinations_seen"] = len(combos)
         ctx.oblige("generator reached all 16+16+4 value/permute-bit combinations of AND/OR/INV",
                    len(combos) == 36, "seen %d: %s" % (len(combos), combos))
+        missing = ["shape %d x %s" % (sh, cl) for sh in range(HIST_SHAPES) for cl in HIST_CLASSES
+                   if not c.get("hist_shape_%d_class_%s" % (sh, cl))]
+        missing += [k for k in ["hist_fail_" + cl for cl in HIST_CLASSES] +
+                    ["hist_max_live_2", "hist_max_live_3", "hist_eval_with_2_live", "hist_eval_with_3_live",
+                     "hist_failure_with_1_live", "hist_failure_with_2_live", "hist_garble_with_2_live",
+                     "hist_second_release", "hist_key_refilled_in_place"] if not c.get(k)]
+        ctx.oblige("history generator reached every history shape x failure point of Garble (before / inside / "
+                   "after R, inside / between input labels, last byte, refused key) with 2 and 3 garblings live",
+                   not missing, "not reached: %s" % missing)
     ctx.coverage["rule"] = ("random well-formed circuits (6 gate mixes, fan-out, in0=in1, wire overwrite), keys of "
                             "16/24/32 bytes, random/biased tapes; distinct = distinct op lines having at least one "
-                            "AND/OR/INV gate")
+                            "AND/OR/INV gate; plus garbling histories on one circuit value (mode hist): 7 history "
+                            "shapes x 7 failure points of Garble (tape cut before / inside / right after R, inside / "
+                            "between input labels, one byte short; refused key size), 2..3 garblings live together, "
+                            "evaluated out of order and repeatedly, released in any order, second Release, key "
+                            "buffer refilled in place; every history op line is distinct")
     ctx.assumptions += [
         "crypto/aes is an arbitrary function in the theorems; its Lean re-implementation only matters for the byte-exact comparison",
         "tweak counter modelled as Nat (Go: uint32; circuits with > 2^31 non-free gates are out of scope)",
         "WF excludes circuits in which a gate overwrites an input wire (the API hands out input labels after garbling)",
+        "histories: sync.Pool is a linearizable multiset (Model/Pool.lean, as in C17); which cached scratch Get returns is "
+        "not observable - the theorems hold for every choice, the executed model takes the most recently Put one",
+        "histories: a Garble failing inside the gate loop (invalid gate op) is covered by the theorems (any k) but not "
+        "generated: it needs a circuit outside the property's well-formed class",
     ]
     return ctx.finish(
         "Theorems: for every hash pair H (every AES key), offset r with select bit set, input labels, WF circuit and "
         "input, garbled evaluation takes no error branch and every defined wire's label is the label of the plain bit "
         "(Props/C01.lean). Tie: real Circuit.Garble/Eval/Compute vs the same Lean definitions executed with Lean AES, "
         "compared byte for byte (R, every wire pair, every table row, every evaluated label, Compute bits). Oracle: "
-        "BitFromLabel on every wire vs reference evaluator vs Compute.")
+        "BitFromLabel on every wire vs reference evaluator vs Compute. Histories (Props/C01Hist.lean, on the ownership "
+        "model of C17): after ANY sequence of successful Garble calls, Garble calls failing after any number of writes "
+        "(exactly one Put of the scratch), evaluations and Releases on one circuit value, no scratch is cached twice or "
+        "behind two live garblings, and every live garbling is Circuit.garble of its own key and tape and evaluates "
+        "correctly; a double Put on the error path is refuted by a witness history. Tie: mode hist runs such histories "
+        "on the real code and on the model (each call a block of model steps, Garble's real writes), byte for byte; "
+        "oracle: a live garbling never changes, live garblings never share buffers, every evaluation decodes to the "
+        "reference bits.")
